@@ -269,7 +269,7 @@ def check(ck):
     cl = common.closure(prog, common.serving_roots(prog))
     edges = dict((fq, set(r.fq for (_n, _c, r) in common.callees(prog, f_)) & set(cl)) for fq, f_ in cl.items())
     for comp in _cycles(edges):
-        structural = all(x.startswith("jsonclass.") for x in comp)
+        structural = all(x.startswith(("jsonclass.", "utils.")) for x in comp)       # recursion over sub-values / over the class hierarchy
         f0 = cl[sorted(comp)[0]]
         ck.require(structural, "C02.7", "serving call graph: cycle %s" % " -> ".join(sorted(comp)), "structural recursion over sub-values (jsonclass)",
                    "the serving code re-enters %s recursively: a request value nested inside itself (e.g. an array inside a batch array) is "
